@@ -123,6 +123,18 @@ class Call:
         return f"<call {self.callee} @{self.body.name} bb{self.bb} L{self.line}>"
 
 
+def _load_frozen_params():
+    p = os.path.join(os.path.dirname(os.path.abspath(__file__)), "param_names.json")
+    try:
+        with open(p) as f:
+            return json.load(f)
+    except (OSError, ValueError):
+        return {}
+
+
+FROZEN_PARAMS = _load_frozen_params()
+
+
 class Body:
     def __init__(self, crate, o):
         self.crate = crate
@@ -139,6 +151,14 @@ class Body:
         self.argc = o["argc"]
         self.locals = o["locals"]
         self.dbg = o["dbg"]
+        fz = FROZEN_PARAMS.get(self.key)
+        if fz and fz["argc"] == self.argc:
+            # parameters are identified by position and shown under their frozen names (a
+            # parameter rename is not a change of any operand)
+            names = fz["names"]
+            live = {p for n, p in self.dbg}
+            self.dbg = [[names.get(p, n), p] if int(p.split("|")[0]) <= self.argc and p in names
+                        else [n, p] for n, p in self.dbg]
         self.blocks = o["blocks"]
         self._succ = None
         self._pred = None
